@@ -5,6 +5,11 @@ pid = sys.argv[1]
 wt = "/tmp/wt_" + pid + (sys.argv[2] if len(sys.argv) > 2 else "")
 p = [json.loads(l) for l in open("/verif/properties.jsonl") if json.loads(l)["id"] == pid][0]
 conc = "schedules" in p["quantifier"]["over"]
+import os
+avoid = ""
+ap = "/verif/seeded/_avoid/%s.txt" % pid
+if len(sys.argv) > 2 and os.path.exists(ap):
+    avoid = "\nOther people have already tried the following ideas for this property; yours must be a DIFFERENT one (a different mechanism, code site or trigger):\n" + open(ap).read()
 print(f"""You are helping to evaluate a verification framework that you will not see. Work ONLY inside the git worktree {wt} (a checkout of the C++ project abj1210/wencry: a CLI file encryptor with hand-written AES-128 in five modes, SHA-1/MD5/SHA-256, HMAC, base64 and a multithreaded condition-variable based chunk-buffer pipeline). Do NOT read, list or touch /verif or /repo, and do not commit anything.
 
 PROPERTY that the code is supposed to satisfy:
@@ -16,6 +21,7 @@ YOUR TASK: produce ONE source change (a patch to the library/program code under 
   1. the project still compiles,
   2. the existing stable tests still pass (stable tests = the names in the "stable_pass" list of /root/.vp/BASELINE.json, written as "<ctest test name>::<gtest case>"; the remaining tests are flaky or failing on the unchanged code and do not matter),
   3. ordinary use would NOT expose it at once: it must need something specific to manifest - {'a particular interleaving of the worker threads and the I/O thread, ' if conc else ''}a crash or fault at a particular point, a multi-step sequence of operations, an unusual input (a particular length / residue / value), or two cooperating sites that each look fine alone.
+{avoid}
 Make it look like a plausible regression a maintainer could introduce (a refactor, an 'optimisation', a dropped check, an off-by-one, a wrong constant), not sabotage guarded by an unrelated magic number. Read the code first (README.md, kernel/, valget/, main.cpp, test/). Note: lines with WV_POINT / WV_EVENT / WENCRY_VERIF are inert instrumentation macros (no-ops in a normal build); leave them in place (you may move them along with the code they annotate).
 
 Build and test (use a build dir inside the worktree, at most 4 parallel jobs):
